@@ -78,8 +78,22 @@ struct Slot {
     std::optional<covfie::field<TM>> m;
     std::optional<covfie::field<TW>> w;
     std::optional<covfie::field<TV>> v;
+    // a view taken when the slot's buffer was last (re)built: views are non-owning, so a later write through ANOTHER view of
+    // the same field must be visible through it
+    std::optional<covfie::field_view<TS>> pvs;
+    std::optional<covfie::field_view<TM>> pvm;
+    std::optional<covfie::field_view<TW>> pvw;
+    std::optional<covfie::field_view<TV>> pvv;
+    void drop_views()
+    {
+        pvs.reset();
+        pvm.reset();
+        pvw.reset();
+        pvv.reset();
+    }
     void reset()
     {
+        drop_views();
         s.reset();
         m.reset();
         w.reset();
@@ -131,6 +145,14 @@ static std::optional<covfie::field<B>> & opt_of(Slot & s)
     else if constexpr (std::is_same_v<B, TM>) return s.m;
     else if constexpr (std::is_same_v<B, TW>) return s.w;
     else return s.v;
+}
+template <class B>
+static std::optional<covfie::field_view<B>> & pview_of(Slot & s)
+{
+    if constexpr (std::is_same_v<B, TS>) return s.pvs;
+    else if constexpr (std::is_same_v<B, TM>) return s.pvm;
+    else if constexpr (std::is_same_v<B, TW>) return s.pvw;
+    else return s.pvv;
 }
 template <class F>
 static void with_type(int t, F && f)
@@ -379,6 +401,19 @@ static Outcome replay(const std::vector<Op> & hist, int K)
         for (size_t step = 0; step < hist.size() && out.ok; ++step) {
             apply_impl(P, hist[step]);
             apply_model(M, hist[step]);
+            {
+                const Op & op = hist[step];
+                // the target's buffer was (re)built by every operation except a write; a moved-from source loses its view
+                if (op.kind != WRITE && op.kind != DESTROY && M[op.a].st == 1) {
+                    P[op.a].drop_views();
+                    with_field(P[op.a], [&](auto & f) {
+                        using B = typename std::decay_t<decltype(f)>::backend_t;
+                        pview_of<B>(P[op.a]).emplace(f);
+                        return 0;
+                    });
+                }
+                if ((op.kind == MOVEC || op.kind == MOVEA || op.kind == CONVM) && op.b >= 0 && op.b != op.a) P[op.b].drop_views();
+            }
             std::vector<const void *> bufs;
             for (int a = 0; a < K && out.ok; ++a) {
                 if (M[a].st != 1) continue;
@@ -406,6 +441,19 @@ static Outcome replay(const std::vector<Op> & hist, int K)
                         }
                     }
                     if (!M[a].vals.empty()) bufs.push_back(&cell<B>(v, 0, 0));
+                    // the same cells through the view taken when the buffer was built
+                    if (auto & pv = pview_of<B>(P[a]); pv.has_value() && out.ok) {
+                        for (size_t c = 0; c < M[a].vals.size(); ++c) {
+                            float got = cell<B>(*pv, c / sz[1], c % sz[1]);
+                            h = fnv_of(got, h);
+                            if (got != static_cast<float>(M[a].vals[c])) {
+                                out.ok = false;
+                                out.key = std::string("staleview:") + KN[hist[step].kind] + ":" + TN[M[a].type];
+                                out.detail = "after " + hist[step].str() + " a view of slot " + std::to_string(a) + " taken before the operation reads " + std::to_string(got) + " at cell " + std::to_string(c) + ", the field holds " + std::to_string(M[a].vals[c]);
+                                return 0;
+                            }
+                        }
+                    }
                     return 0;
                 });
             }
